@@ -61,3 +61,12 @@ ENTRIES += [
     N('websession-notify-in-finally', "            self._current_session.recycle()\n            self._current_session.event_dispatcher.notify(\n                self._current_session.SessionEvent.end_session, error=error)\n",
       "            try:\n                self._current_session.event_dispatcher.notify(\n                    self._current_session.SessionEvent.end_session, error=error)\n            finally:\n                self._current_session.recycle()\n", 'wpull/protocol/http/web.py'),
 ]
+
+H = 'wpull/protocol/http/client.py'
+ENTRIES += [
+    # abort() runs after recycle() on every exit of the web session: a handle kept past the give-back must not be acted on
+    B('abort-closes-kept-stream', "        super().abort()\n\n        self._session_state = SessionState.aborted\n",
+      "        super().abort()\n\n        if self._stream:\n            self._stream.close()\n\n        self._session_state = SessionState.aborted\n", 'C12-D7', H),
+    N('abort-closes-stream-recycle-clears', "        super().abort()\n\n        self._session_state = SessionState.aborted\n\n    def recycle(self):\n        if not self.done():\n            super().abort()\n            warnings.warn(_('HTTP session did not complete.'))\n\n        super().recycle()\n",
+      "        super().abort()\n\n        if self._stream:\n            self._stream.close()\n\n        self._session_state = SessionState.aborted\n\n    def recycle(self):\n        if not self.done():\n            super().abort()\n            warnings.warn(_('HTTP session did not complete.'))\n\n        super().recycle()\n        self._stream = None\n", H),
+]
